@@ -134,6 +134,9 @@ def sub_hist(case):
                 for ii in range(n_in):
                     if j < nk[ii]:
                         model[ii].add(j)
+            elif kind == 'sign_again':  # a key that already signed signs once more (no replace): nothing changes
+                _, ii, j = ev
+                t.sign(keys=[_libkey(spec['inputs'][ii]['keys'][j], comp[ii])], index_n=ii)
             elif kind == 'resign':      # sign again with replace_signatures
                 _, ii, j = ev
                 t.sign(keys=[_libkey(spec['inputs'][ii]['keys'][j], comp[ii])], index_n=ii, replace_signatures=True)
@@ -187,6 +190,8 @@ def sub_hist(case):
                     en.append(['signm', ii, list(js)])
             for j in sorted(model[ii])[:1]:
                 en.append(['resign', ii, j])
+            for j in sorted(model[ii])[-1:]:
+                en.append(['sign_again', ii, j])
             if not any(e[0] == 'foreign' for e in hist):
                 en.append(['foreign', ii])
     if n_in >= 2:
@@ -404,8 +409,11 @@ def _object_edits(spec):
         out += [('out_value', j, 1), ('out_value', j, -1), ('out_script', j, 0), ('out_script', j, -1)]
     for i in range(len(spec['inputs'])):
         out += [('txid', i, 0), ('txid', i, 31), ('index', i, 1), ('seq', i, 1), ('seq', i, -1), ('amount', i, 1),
-                ('amount', i, -1)]
-    out += [('locktime', 0, 1), ('locktime', 0, -1), ('version', 0, 0)]
+                ('amount', i, -1), ('index_bytes_only', i, 1), ('index_int_only', i, 1)]
+    # fields the object keeps in two copies (bytes and int): also each copy alone - whatever copy raw() writes is
+    # the one the signatures must be checked against
+    out += [('locktime', 0, 1), ('locktime', 0, -1), ('version', 0, 0), ('version_bytes_only', 0, 0),
+            ('version_int_only', 0, 0)]
     return out
 
 
@@ -435,6 +443,14 @@ def _apply_object_edit(t, ed):
         v = 1 if t.version_int != 1 else 2
         t.version_int = v
         t.version = v.to_bytes(4, 'big')
+    elif what == 'version_bytes_only':
+        t.version = (1 if t.version_int != 1 else 2).to_bytes(4, 'big')
+    elif what == 'version_int_only':
+        t.version_int = 1 if t.version_int != 1 else 2
+    elif what == 'index_bytes_only':
+        t.inputs[i].output_n = (t.inputs[i].output_n_int + d).to_bytes(4, 'big')
+    elif what == 'index_int_only':
+        t.inputs[i].output_n_int = t.inputs[i].output_n_int + d
 
 
 def sub_tamper_object(case):
